@@ -25,6 +25,8 @@ import GunYu.Model.Slot
 import GunYu.Model.ClusterRoute
 import GunYu.Model.ClusterSender
 import GunYu.Model.ClusterExec
+import GunYu.Model.ClusterFlush
+import GunYu.Model.ClusterMulti
 namespace GunYu.Drive.C19
 open GunYu GunYu.ClusterRoute
 
@@ -73,6 +75,8 @@ structure PAcc where
   keyOf : List (Nat × Key) := []        -- cmd id ↦ key (from the puts)
   nodeLog : List (Node × String) := []
   quiet : Bool := true                  -- `QuietRun` so far (decidable form, evaluated on the observed run)
+  keysOf : List (Nat × List Key) := []  -- cmd id ↦ ALL its keys (multi-key commands: P:<bid>:<cmd>:<k+k+…>:<node>)
+  fault : Bool := false                 -- the double injected a fault into the next request
 
 def plainEv (acc : PAcc) (p : List String) : Option Ev :=
   match p with
@@ -104,10 +108,33 @@ def runPlain (ctx : Ctx) (tag : String) (n : Nat) (showQuiet : Bool) (toks : Lis
     | [] => .ok acc
     | t :: ts =>
       -- F:<kind>: the double injected a fault into the next request (its answer is the `e` that follows)
-      if t.startsWith "F:" then go acc (i + 1) ts else
-      match plainEv acc (t.splitOn ":") with
+      if t.startsWith "F:" then go { acc with fault := true } (i + 1) ts else
+      -- a multi-key command is put with all its keys `k+k+…`; ClusterRoute runs over the first one
+      -- (the key the client routes by; Props.C19.answerM_refines_first), the others are kept aside
+      let (parts, extra) : List String × Option (Nat × List Key) :=
+        match t.splitOn ":" with
+        | ["P", b, c, k, n] =>
+          let ks := (k.splitOn "+").filterMap nat?
+          (["P", b, c, toString (ks.headD 0), n], (nat? c).map (fun id => (id, ks)))
+        | p => (p, none)
+      let acc : PAcc := match extra with
+        | some x => { acc with keysOf := x :: acc.keysOf }
+        | none => acc
+      match plainEv acc parts with
       | none => .error s!"parse @{i}"
       | some e =>
+        -- EVERY answer to a multi-key command must be the one getNodeByQuery gives for all its keys
+        -- (ClusterMulti.answerM: CROSSSLOT, TRYAGAIN during a migration, ASK only when every key has gone)
+        let multiBad : Bool := match e with
+          | .srv nd c a o =>
+            match acc.keysOf.find? (·.1 == c.id) with
+            | some (_, ks) => ks.length > 1 && !acc.fault && !(o == ClusterMulti.answerM ctx.slotOf acc.st.sv nd ks a)
+            | none => false
+          | _ => false
+        if multiBad then .error s!"answer-multi {whereOf e i}" else
+        let acc : PAcc := match e with
+          | .srv .. => { acc with fault := false }
+          | _ => acc
         match step ctx.slotOf acc.st e with
         | .error m => .error s!"{m} {whereOf e i}"
         | .ok st' =>
@@ -358,9 +385,22 @@ def submitLine (tag txnC pipe txnPut puts cs fails : String) : String :=
     | .other => "other"
   s!"{tag} attempts={k} submitted={joinOr ((ClusterSender.submitted m s (cs == "1") fs 0).map toString)} final={showF f}"
 
+/-- c19f <tag> <txn 0|1> <pipe 0|1> <flush/flush/…> (flush = puts: node | r, …)  →  "<tag> verdicts ok,…,err":
+    the verdict of every flush up to the first reported one (ClusterFlush.verdicts with the guard order
+    of Exec / Dispatch / Receive regenerated from the source) -/
+def flushLine (tag txn pipe fl : String) : String :=
+  let flushes : List (List ClusterSender.PutEv) := (fl.splitOn "/").map (fun f =>
+    (parseCsv f).map (fun t =>
+      match t.toNat? with
+      | some nd => .routed nd
+      | none => .refused))
+  let vs := ClusterFlush.verdicts ClusterFlush.codeGuards (txn == "1") (pipe == "1") flushes
+  s!"{tag} verdicts {joinOr (vs.map (fun b => if b then "ok" else "err"))}"
+
 end X
 
 def handle : List String → Option (List String)
+  | ["c19f", tag, txn, pipe, fl] => some [X.flushLine tag txn pipe fl]
   | ["c19o", tag, txn, pipe, cls, path, pers] => some [senderLine tag txn pipe cls path pers]
   | ["c19d", tag, txn, puts, failAt] => some [X.dispatchLine tag txn puts failAt]
   | ["c19s", tag, txnC, pipe, txnPut, puts, cs, fails] => some [X.submitLine tag txnC pipe txnPut puts cs fails]
